@@ -11,7 +11,7 @@ From Coq Require Import ZArith QArith List Sorted.
 From Basana Require Import Num.DecQ Exchange.Model Exchange.AcctProofs Exchange.StepProofs Exchange.OpProofs
      Exchange.OrderProofs Exchange.LifeProofs Exchange.Prims Exchange.Structure Exchange.LedgerProofs Exchange.FillBounds Exchange.IndexProofs
      Exchange.Reconfig Exchange.ReconfigProofs
-     Exchange.NoPartial Exchange.EventTimes.
+     Exchange.NoPartial Exchange.EventTimes Exchange.FirstBar.
 Import ListNotations.
 Open Scope Q_scope.
 
@@ -149,6 +149,36 @@ Example C05_never_partial_premises_met :
 Proof.
   cbv zeta. split; [unfold cfg_ok; cbn; discriminate|]. split; [repeat constructor; cbn; discriminate|].
   vm_compute. reflexivity.
+Qed.
+
+(* whole history: market and stop orders do not survive the first bar of their pair -- whenever a bar of pair p has been
+   processed without an internal error, every market / stop order of pair p that existed before it is closed (filled
+   completely, or closed as not filled), wherever the order sits in the open-order index and wherever the periodic
+   re-indexing falls *)
+Theorem C05_market_and_stop_orders_are_closed_by_the_first_bar : forall c initial ops p when b s',
+  cfg_ok c -> ops_ok (ops ++ [OBar p when b]) ->
+  let s := run c (init_st initial) ops in
+  step c s (OBar p when b) = (s', ROk) ->
+  forall id o, get_order s id = Some o -> aon (o_kind o) -> pair_eqb (o_pair o) p = true ->
+  exists o', get_order s' id = Some o' /\ is_open o' = false.
+Proof. exact market_and_stop_orders_do_not_survive_a_bar. Qed.
+Print Assumptions C05_market_and_stop_orders_are_closed_by_the_first_bar.
+
+(* the premises are met: a stop order whose stop price the bar does not reach and a market order too big for the bar's
+   liquidity are open before the bar and closed (unfilled) after it, next to a limit order that stays open *)
+Example C05_first_bar_premises_met :
+  let c := mkCfg [(1%positive, 2%nat); (2%positive, 2%nat)] [] None NoFee (VolShare 25 0) NoLoans in
+  let p := (1%positive, 2%positive) in
+  let ops := [OBar p 60%Z (mkBar 100 100 100 100 10); OCreate (KStop 150) Buy p 1 false false;
+              OCreate KMarket Buy p 5 false false; OCreate (KLimit 50) Buy p 1 false false] in
+  let bar := OBar p 120%Z (mkBar 100 101 99 100 10) in
+  let s := run c (init_st [(2%positive, 1000)]) ops in
+  cfg_ok c /\ ops_ok (ops ++ [bar]) /\ snd (step c s bar) = ROk /\
+  map is_open (s_orders s) = [true; true; true] /\
+  map is_open (s_orders (fst (step c s bar))) = [false; false; true].
+Proof.
+  cbv zeta. split; [unfold cfg_ok; cbn; discriminate|]. split; [repeat constructor; cbn; discriminate|].
+  vm_compute. repeat split; reflexivity.
 Qed.
 
 (* whole history: the order events are emitted in time order and none is dated after the clock of the exchange,
